@@ -182,7 +182,7 @@ func drawC14(t *rapid.T) c14Case {
 		c.Schema = gen.Schema(t, o, 0)
 	}
 	if rapid.IntRange(0, 4).Draw(t, "canonical") != 0 {
-		c.Layout = rapid.SliceOfN(rapid.Byte(), 0, 120).Draw(t, "layout")
+		c.Layout = gen.ChoiceBytes(t, "layout", gen.UniformRange(t, "nlayout", 0, 120))
 		c.Extras = rapid.Bool().Draw(t, "extras")
 	}
 	c.Doc = ref.Render(c.Schema, &ref.Layout{Bits: c.Layout, Extras: c.Extras})
